@@ -17,18 +17,7 @@ verus! {
 
 //@ include prelude/agg_lemmas.rs
 
-// ---- the file record (mdb_shard) ----------------------------------------------------------------------------------------------------
-//@ extract mdb_shard/src/file_structs.rs struct FileDataSequenceHeader
-//@ end
-//@ extract mdb_shard/src/file_structs.rs struct FileVerificationEntry
-//@ end
-//@ extract mdb_shard/src/file_structs.rs struct FileMetadataExt
-//@ end
-//@ extract mdb_shard/src/file_structs.rs struct MDBFileInfo
-//@ end
-
-//@ extract deduplication/src/data_aggregator.rs struct DataAggregator
-//@ end
+//@ include prelude/agg_model.rs
 
 // R7 outlines of iterator chains: assumed to be the sum / projection they spell
 #[verifier::external_body]
@@ -41,74 +30,8 @@ fn vx_file_infos(p: Vec<(MDBFileInfo, Vec<usize>)>) -> (r: Vec<MDBFileInfo>)
     ensures r@.len() == p@.len(), forall|k: int| 0 <= k < p@.len() ==> (#[trigger] r@[k]) == p@[k].0,
 { p.into_iter().map(|(fi, _)| fi).collect() }
 
-type Pending = (MDBFileInfo, Vec<usize>);
-// one pending file is consistent with the chunk-hash list nd of the xorb under construction
-spec fn pend_ok(p: Pending, nd: Seq<MerkleHash>) -> bool {
-    &&& /*C02*/ segs_ok(p.0.segments@, nd)
-    &&& /*C15*/ ire_ok(p.1@, p.0.segments@)
-}
-// merge_in: what happens to a file of `other`
-spec fn file_shifted(p: Pending, q: Pending, sh: int) -> bool {
-    &&& q.1@ == p.1@ && q.0.metadata == p.0.metadata && q.0.verification == p.0.verification && q.0.metadata_ext == p.0.metadata_ext
-    &&& segs_shifted(p.0.segments@, q.0.segments@, sh)
-}
-// finalize: what happens to a pending file (p) on its way out (f), given the xorb hash x
-spec fn file_resolved(p: Pending, f: MDBFileInfo, x: MerkleHash) -> bool {
-    &&& f.metadata == p.0.metadata && f.verification == p.0.verification && f.metadata_ext == p.0.metadata_ext
-    &&& segs_patched(p.0.segments@, f.segments@, x)
-}
-spec fn xorb_le_limits(x: RawXorbData) -> bool {
-    x.cas_info.chunks@.len() <= spec_MAX_XORB_CHUNKS() && x.data@.len() <= spec_MAX_XORB_CHUNKS()
-    && x.cas_info.metadata.num_bytes_in_cas <= spec_MAX_XORB_BYTES()
-}
-
-spec fn segs_nonzero(fi: Seq<FileDataSequenceEntry>) -> bool { forall|i: int| 0 <= i < fi.len() ==> (#[trigger] fi[i]).cas_hash != zero_hash() }
-spec fn segs_patched(s0: Seq<FileDataSequenceEntry>, s1: Seq<FileDataSequenceEntry>, x: MerkleHash) -> bool {
-    s0.len() == s1.len() && forall|i: int| 0 <= i < s0.len() ==> patched(#[trigger] s0[i], s1[i], x)
-}
-// merge_in as a whole, over the abstract view: p0 = receiver's files, q0 = other's files before, q1 = after the shift loop
-proof fn lemma_merge(p0: Seq<Pending>, q0: Seq<Pending>, q1: Seq<Pending>, nd: Seq<MerkleHash>, od: Seq<MerkleHash>)
-    requires
-        forall|k: int| 0 <= k < p0.len() ==> pend_ok(#[trigger] p0[k], nd),
-        forall|k: int| 0 <= k < q0.len() ==> pend_ok(#[trigger] q0[k], od),
-        q1.len() == q0.len(), forall|k: int| 0 <= k < q0.len() ==> file_shifted(#[trigger] q0[k], q1[k], nd.len() as int),
-        sum_len(nd) + sum_len(od) <= u32::MAX,
-    ensures
-        forall|k: int| 0 <= k < (p0 + q1).len() ==> pend_ok(#[trigger] (p0 + q1)[k], nd + od),
-        forall|k: int| 0 <= k < p0.len() ==> flatten((#[trigger] (p0 + q1)[k]).0.segments@, nd + od) == flatten(p0[k].0.segments@, nd),
-        forall|k: int| 0 <= k < q0.len() ==> flatten((p0 + q1)[p0.len() + k].0.segments@, nd + od) == flatten((#[trigger] q0[k]).0.segments@, od),
-{
-    assert forall|k: int| 0 <= k < (p0 + q1).len() implies pend_ok(#[trigger] (p0 + q1)[k], nd + od)
-        && (k < p0.len() ==> flatten((p0 + q1)[k].0.segments@, nd + od) == flatten(p0[k].0.segments@, nd))
-        && (k >= p0.len() ==> flatten((p0 + q1)[k].0.segments@, nd + od) == flatten(q0[k - p0.len()].0.segments@, od)) by {
-        if k < p0.len() {
-            assert((p0 + q1)[k] == p0[k]); assert(pend_ok(p0[k], nd));
-            lemma_append_keep(p0[k].0.segments@, nd, od);
-        } else {
-            let j = k - p0.len();
-            assert((p0 + q1)[k] == q1[j]); assert(pend_ok(q0[j], od)); assert(file_shifted(q0[j], q1[j], nd.len() as int));
-            lemma_shift(q0[j].0.segments@, q1[j].0.segments@, nd, od);
-            lemma_ire_same_hashes(q0[j].1@, q0[j].0.segments@, q1[j].0.segments@);
-        }
-    }
-    assert forall|k: int| 0 <= k < q0.len() implies flatten((p0 + q1)[p0.len() + k].0.segments@, nd + od) == flatten((#[trigger] q0[k]).0.segments@, od) by {
-        assert(pend_ok((p0 + q1)[p0.len() + k], nd + od));
-    }
-}
-
 impl DataAggregator {
-    spec fn nd(&self) -> Seq<MerkleHash> { hashes(self.chunks@) }
-    spec fn bytes_ok(&self) -> bool { chunks_ok(self.chunks@) && self.num_bytes == sum_len(self.nd()) }
-    spec fn agg_wf(&self) -> bool {
-        &&& self.bytes_ok()
-        &&& forall|k: int| 0 <= k < self.pending_file_info@.len() ==> pend_ok(#[trigger] self.pending_file_info@[k], self.nd())
-    }
-    // C15: the lock invariant of the session aggregator / what FileDeduper::finalize hands over
-    spec fn within_limits(&self) -> bool {
-        xorb_config_ok() && self.chunks@.len() <= spec_MAX_XORB_CHUNKS() && self.num_bytes <= spec_MAX_XORB_BYTES()
-    }
-    // C01: the chunk-hash sequence pending file k denotes
-    spec fn den(&self, k: int) -> Seq<MerkleHash> { flatten(self.pending_file_info@[k].0.segments@, self.nd()) }
+    // spec forms of the two getters (when_used_as_spec: the debug assertions call the getters)
     spec fn spec_num_bytes(&self) -> usize { self.num_bytes }
     spec fn spec_num_chunks(&self) -> usize { self.chunks@.len() as usize }
 
